@@ -33,9 +33,23 @@ def main():
         ctx.only = (r["rule"], r["construct"])
         print("replaying %s/%s" % ctx.only)
     mod.run(ctx)
+    st_missed = []
+    if ctx.tier == "thorough" and not a.replay and not os.environ.get("VERIF_NO_SELFTEST"):
+        # variant corpus: every breaking variant must be caught, every benign twin must stay silent
+        sys.path.insert(0, os.path.join(HERE, "selftest"))
+        import run as strun
+        res = strun.run(pid)
+        summ = strun.summarize(res)
+        summ["variants"] = [dict(name=r["v"]["name"], expect=r["v"]["expect"], status=r["status"],
+                                 rules=r.get("rules", [])[:2]) for r in res["results"]]
+        ctx.extra["selftest"] = summ
+        st_missed = summ["missed"]
+        print("   selftest: caught %d/%d breaking variants, %d/%d benign twins silent, stale=%s" % (
+            summ["caught"], summ["breaking"], summ["benign_silent"], summ["benign"], summ["stale"]))
     code = finish(ctx)
-    if ctx.tier == "thorough" and code == 0 and not a.replay and hasattr(mod, "selftest"):
-        code = mod.selftest(ctx) or 0
+    if st_missed:
+        print("ANALYSIS-ERROR: property=%s selftest variants not decided as expected: %s" % (pid, st_missed))
+        return 2
     return code
 
 
